@@ -7,6 +7,9 @@ kinds: pack     TransactionBuilder._pack_tokens_for_change
        add      TransactionBuilder._add_change_and_fee (both passes, merge on/off)
        ser      to_cbor() of an output / UTxO / body / transaction holding given amounts
        build    TransactionBuilder.build() end to end
+
+Every case may carry `pp`: a dict {field name of ProtocolParameters: value} overriding the defaults of the chain
+context below (the legacy min_utxo / coins_per_utxo_word as real backends report them, fee coefficients, ...).
 """
 from _pre import *
 from copy import deepcopy
@@ -18,14 +21,14 @@ from pycardano import (Address, Asset, AssetName, MultiAsset, ScriptHash, Value,
 from pycardano.backend.base import ChainContext, GenesisParameters, ProtocolParameters
 from pycardano.serialization import default_encoder
 from pycardano.transaction import _Script
-from pycardano.utils import min_lovelace_post_alonzo
+from pycardano.utils import min_lovelace_post_alonzo, min_lovelace
 from fractions import Fraction
 
 
 class Ctx(ChainContext):
     """Chain context serving the scenario's UTxOs and protocol parameters."""
 
-    def __init__(self, cpb, mvs, utxos=()):
+    def __init__(self, cpb, mvs, utxos=(), pp=None):
         self._pool = list(utxos)
         self._pp = ProtocolParameters(
             min_fee_constant=155381, min_fee_coefficient=44, max_block_size=73728, max_tx_size=16384,
@@ -38,6 +41,11 @@ class Ctx(ChainContext):
             coins_per_utxo_byte=cpb, cost_models={},
             min_fee_reference_scripts={'base': 15, 'range': 25600, 'multiplier': 1.2},
             maximum_reference_scripts_size={'bytes': 200000})
+        if pp:
+            unknown = set(pp) - set(self._pp.__dataclass_fields__)
+            if unknown or 'coins_per_utxo_byte' in pp or 'max_val_size' in pp:
+                raise ValueError(f'bad protocol parameter override {sorted(pp)}')
+            self._pp = replace(self._pp, **pp)
         self._gp = GenesisParameters(
             active_slots_coefficient=0.05, update_quorum=5, max_lovelace_supply=45000000000000000,
             network_magic=764824073, epoch_length=432000, system_start=1506203091, slots_per_kes_period=129600,
@@ -116,7 +124,7 @@ def guarded(f):
 
 
 def k_pack(c):
-    ctx = Ctx(c['cpb'], c['mvs'])
+    ctx = Ctx(c['cpb'], c['mvs'], pp=c.get('pp'))
     b = TransactionBuilder(ctx)
     change = mk_val(c['change'])
     before = dump_val(change)
@@ -126,7 +134,7 @@ def k_pack(c):
 
 
 def k_ovf(c):
-    ctx = Ctx(c['cpb'], c['mvs'])
+    ctx = Ctx(c['cpb'], c['mvs'], pp=c.get('pp'))
     b = TransactionBuilder(ctx)
     out = TransactionOutput(addr_of(c['addr']), mk_val(c['out']))
     cur = Asset()
@@ -160,7 +168,7 @@ def prep_builder(c, ctx):
 
 
 def k_calc(c):
-    ctx = Ctx(c['cpb'], c['mvs'])
+    ctx = Ctx(c['cpb'], c['mvs'], pp=c.get('pp'))
     b = prep_builder(c, ctx)
     ins = list(b.inputs)
     outs = list(b.outputs)
@@ -205,7 +213,7 @@ def snap_output(o):
 
 
 def k_minada(c):
-    ctx = Ctx(c['cpb'], 5000)
+    ctx = Ctx(c['cpb'], 5000, pp=c.get('pp'))
     dh, dt, sc, dbytes, sbytes = mk_datum_script(c)
     o = TransactionOutput(addr_of(c['addr']), mk_val(c['amount']), datum_hash=dh, datum=dt, script=sc,
                           post_alonzo=bool(c.get('post_alonzo')))
@@ -213,10 +221,13 @@ def k_minada(c):
     mapform = TransactionOutput(o.address, deepcopy(o.amount), dh, dt, sc, True)
     if mapform.amount.coin == 0:
         mapform.amount.coin = 1000000
+    # entry point: the utility itself, or the public dispatcher min_lovelace(context, output=...)
+    util = (lambda out: min_lovelace(ctx, output=out)) if c.get('entry') == 'dispatch' else \
+        (lambda out: min_lovelace_post_alonzo(out, ctx))
     before = snap_output(o)
-    r1 = min_lovelace_post_alonzo(o, ctx)
+    r1 = util(o)
     after = snap_output(o)
-    r2 = min_lovelace_post_alonzo(o, ctx)
+    r2 = util(o)
     return {'ok': r1, 'second': r2, 'unchanged': before == after and own == o.to_cbor().hex(), 'own': own,
             'map': mapform.to_cbor().hex(), 'dbytes': dbytes.hex() if dbytes is not None else None,
             'sbytes': sbytes.hex() if sbytes is not None else None}
@@ -227,7 +238,7 @@ def dump_out(o):
 
 
 def k_add(c):
-    ctx = Ctx(c['cpb'], c['mvs'])
+    ctx = Ctx(c['cpb'], c['mvs'], pp=c.get('pp'))
     b = prep_builder(c, ctx)
     addr = addr_of(c['addr'])
     fee1 = b._estimate_fee()
@@ -263,7 +274,7 @@ def k_ser(c):
 
 def k_build(c):
     utxos = [mk_utxo(u) for u in c['pool']]
-    ctx = Ctx(c['cpb'], c['mvs'], utxos)
+    ctx = Ctx(c['cpb'], c['mvs'], utxos, pp=c.get('pp'))
     b = TransactionBuilder(ctx)
     for i in c['explicit']:
         b.add_input(utxos[i])
